@@ -185,6 +185,8 @@ pub fn length_sweep(ctx: &mut Ctx) {
                         "C13" => {
                             ctx.check("sweep:twins:filter", &json!({"filter": [{"var": "c"}, {"===": [{"var": ""}, marked]}]}), &d);
                             ctx.check("sweep:twins:filter:truthiness", &json!({"filter": [{"var": "c"}, {"var": ""}]}), &d);
+                            ctx.check("sweep:twins:filter:keep-fillers", &json!({"filter": [{"var": "c"}, {"===": [{"var": ""}, filler]}]}), &d);
+                            ctx.check("sweep:twins:filter:keep-fillers:!==", &json!({"filter": [{"var": "c"}, {"!==": [{"var": ""}, marked]}]}), &d);
                             ctx.check("sweep:twins:map", &json!({"map": [{"var": "c"}, {"===": [{"var": ""}, filler]}]}), &d);
                         }
                         "C14" => {
@@ -384,6 +386,15 @@ pub fn length_sweep(ctx: &mut Ctx) {
                     let other: Vec<Value> = (0..n).map(|i| if i == p { json!(-1) } else { json!(i) }).collect();
                     let floats: Vec<Value> = (0..n).map(|i| json!(i as f64)).collect();
                     ctx.check("sweep:in:array-needle:differs-at", &json!({"in": [{"var": "xs"}, [other]]}), &dv);
+                    {
+                        // ... and where one side holds a container ([p], {"v":p}) and the other the scalar
+                        let boxed: Vec<Value> = (0..n).map(|i| if i == p { json!([i]) } else { json!(i) }).collect();
+                        let objd: Vec<Value> = (0..n).map(|i| if i == p { json!({ "v": i }) } else { json!(i) }).collect();
+                        ctx.check("sweep:in:array-needle:container-at", &json!({"in": [{"var": "xs"}, [boxed]]}), &dv);
+                        ctx.check("sweep:in:array-needle:container-at", &json!({"in": [boxed, [{"var": "xs"}, "x"]]}), &dv);
+                        ctx.check("sweep:in:array-needle:container-at", &json!({"in": [{"var": "xs"}, [objd, boxed]]}), &dv);
+                        ctx.check("sweep:in:array-needle:container-at:same", &json!({"in": [boxed, [objd, boxed]]}), &dv);
+                    }
                     ctx.check("sweep:in:array-needle:differs-at:nested", &json!({"in": [[{"var": "xs"}], [[other], "x"]]}), &dv);
                     if p == n - 1 {
                         ctx.check("sweep:in:array-needle:same", &json!({"in": [{"var": "xs"}, [other, floats]]}), &dv);
@@ -911,6 +922,24 @@ pub fn pipeline_probes(ctx: &mut Ctx) {
 /// value on, renders it or converts it: what comes out is the same double, digit for digit.
 pub fn number_text_probes(ctx: &mut Ctx) {
     let prop = ctx.prop.clone();
+    if prop == "C10" {
+        // remainders and quotients over the whole magnitude ladder (whole doubles of any size have exact remainders)
+        let lad = al::magnitude_ladder();
+        for v in &lad {
+            if !ctx.mine() {
+                continue;
+            }
+            ctx.edge();
+            for m in [json!(10), json!(7), json!(-3), json!(2.5), json!(1e15), json!(4294967296u64), json!("3"), v.clone()] {
+                ctx.check("ladder:%", &json!({"%": [v, m]}), &Value::Null);
+                ctx.check("ladder:%:reversed", &json!({"%": [m, v]}), &Value::Null);
+                ctx.check("ladder:/", &json!({"/": [v, m]}), &Value::Null);
+            }
+            ctx.check("ladder:%:V", &json!({"%": [{"var": "v"}, {"var": "w"}]}), &json!({"v": v, "w": 10}));
+            ctx.check("ladder:%:string", &json!({"%": [v.to_string(), 10]}), &Value::Null);
+            ctx.check("ladder:%:array", &json!({"%": [[v], 10]}), &Value::Null);
+        }
+    }
     if !["C02", "C05", "C07", "C08", "C09", "C10", "C11", "C13", "C14", "C15"].contains(&prop.as_str()) {
         return;
     }
@@ -1294,6 +1323,23 @@ pub fn condition_kind_probes(ctx: &mut Ctx) {
             }
         }
     }
+    if ctx.mine() {
+        // literal objects with SEVERAL keys one of which is an operator name, in every selected position: returned as written
+        let d = json!({"a": 1, "f": 0});
+        for o in [json!({"?:": [true, "inner-then", "inner-else"], "note": 1}), json!({"if": [true, 1, 2], "k": 1}), json!({"var": "a", "note": 1}), json!({"and": [1, 2], "x": 1}), json!({"note": 1, "?:": [{"in": [1, 2]}, 1, 2]}),
+                  json!({"or": [0, 1], "!": [1]}), json!({"log": "LEAK", "z": 0})] {
+            ctx.edge();
+            for k in ["if", "?:"] {
+                for args in [vec![json!(false), json!("then"), o.clone()], vec![json!(true), o.clone(), json!("else")], vec![json!(0), json!(1), json!(0), json!(2), o.clone()], vec![json!({"var": "f"}), json!(1), json!({"var": "a"}), o.clone(), json!(3)],
+                             vec![o.clone()], vec![json!(0), json!(1), o.clone()], vec![o.clone(), json!("truthy-object"), json!("no")]] {
+                    ctx.check("multi-key-literal-in-selected-position", &al::op(k, args), &d);
+                }
+            }
+            ctx.check("multi-key-literal-in-selected-position", &json!({"or": [0, o]}), &d);
+            ctx.check("multi-key-literal-in-selected-position", &json!({"and": [1, o]}), &d);
+            ctx.check("multi-key-literal-in-selected-position", &json!({"?:": [0, 1, {"?:": [0, 2, o]}]}), &d);
+        }
+    }
     let vals = al::many_pub(&["\"a\"", "0", "[]", "[[]]", "\"\"", "null", "\"0\"", "{}", "5e-324", "[0]", "-0.0"]);
     for v in &vals {
         if !ctx.mine() {
@@ -1324,10 +1370,11 @@ pub fn provenance_probes(ctx: &mut Ctx) {
     if !["C02", "C04", "C13", "C14"].contains(&prop.as_str()) {
         return;
     }
-    let d = json!({"xs": [1, 2, 3], "floor": 10, "x": "x", "a": 1, "ms": [{"var": "a"}, {"==": [1]}], "secret": "s3"});
+    let d = json!({"xs": [1, 2, 3], "floor": 10, "x": "x", "a": 1, "ms": [{"var": "a"}, {"==": [1]}], "secret": "s3", "mo": {"var": "xs"}});
     let marker = json!({"var": "a"});
     let colls: Vec<(&str, Value)> = vec![
         ("literal", json!([1, 2, 3])), ("var", json!({"var": "xs"})), ("merge", json!({"merge": [[1, 2], [3]]})), ("if", json!({"if": [true, [1, 2, 3]]})), ("filter", json!({"filter": [[1, 2, 3], true]})),
+        ("marker-object", json!({"var": "mo"})), ("marker-object-if", json!({"if": [true, {"var": "mo"}]})), ("marker-string", json!({"var": "x"})),
         ("merge-of-markers", json!({"merge": [[marker], [{"==": [1]}]]})), ("nested-literal", json!([[marker], [{"==": [1]}, {"substr": []}]])), ("var-markers", json!({"var": "ms"})), ("if-markers", json!({"if": [true, [marker]]})),
     ];
     let exprs = [json!("x"), json!(1), json!(null), json!([{"var": ""}]), json!({"k": {"var": ""}}), json!({"var": ""}), json!({"cat": ["x"]}), json!({"var": "0"}), json!({"===": [{"var": ""}, 1]}), json!({"var": "=="}), json!({"var": "var"})];
